@@ -113,6 +113,8 @@ class C14(Prop):
             "seg": gen.segmentation(),
             # an earlier connection in this process (same WebSocket object or another) and how it ended
             "prelude": gen.prelude(),
+            # a second live connection in the same process (interleaved with this one, or blocked in a send)
+            "companion": gen.companion(),
             # permessage-deflate negotiated (any parameters); the data messages selected by cmask are sent
             # compressed by the peer, so Pings also arrive between the fragments of compressed messages
             # (Pongs must still go out uncompressed, with the Ping's payload)
